@@ -53,7 +53,14 @@ type Recorder struct {
 	// proper); OnServe, if set, runs when the delay is over, immediately before the CAS proper.
 	Delay   time.Duration
 	OnServe func()
+	// Before, if set, runs immediately before every CAS proper of this writer until it returns true: the
+	// store content may change between whatever the writer read earlier and its write (the function of a
+	// CAS must decide on the value it is handed, not on an earlier read).
+	Before func() bool
 }
+
+// SetBefore sets Before.
+func (r *Recorder) SetBefore(f func() bool) { r.mu.Lock(); r.Before = f; r.mu.Unlock() }
 
 // SetDelay sets Delay and OnServe.
 func (r *Recorder) SetDelay(d time.Duration, onServe func()) {
@@ -70,6 +77,7 @@ func (r *Recorder) CAS(ctx context.Context, key string, f func(interface{}) (int
 	ip := r.Interpose
 	r.Interpose = nil
 	delay, onServe := r.Delay, r.OnServe
+	before := r.Before
 	r.mu.Unlock()
 	if delay > 0 {
 		time.Sleep(delay)
@@ -89,6 +97,11 @@ func (r *Recorder) CAS(ctx context.Context, key string, f func(interface{}) (int
 			}
 		}
 		ip()
+	}
+	if before != nil && before() {
+		r.mu.Lock()
+		r.Before = nil
+		r.mu.Unlock()
 	}
 	var in, out interface{}
 	err := r.Client.CAS(ctx, key, func(v interface{}) (interface{}, bool, error) {
